@@ -71,6 +71,9 @@ def classify_time_read(repo, f, node, d):
 
 
 def run(repo, res):
+    from .common import borrow as _borrow
+
+    _borrow(repo, res, "c13", "R13.2", "R11.5", "(= R13.2) maximization bounds each child by the running minimum over its parents' estimated grid indices; it does not rely on the order in which parents are visited (that order follows the input times)")
     from . import sampleorder
 
     res.rule("R11.4", "sample nodes are identified by ts.samples() / the NODE_IS_SAMPLE bit, never by position in the node table: num_samples is used as a count only (no slice bound, no id range, no ordering comparison with a node id)")
